@@ -23,6 +23,8 @@ Cells == { Str(<<"a">>), Str(<<"1", ".", "0">>), Str(<<" ", "x", " ">>), Str(<<>
     \cup { [k |-> "datetime", serial |-> SerialOfCivil(2020, 2, 29), sec |-> s] : s \in Seconds \ {0} }
     \cup { [k |-> "datetime", serial |-> SerialOfCivil(1999, 12, 31), sec |-> 86399] }
     \cup { [k |-> "time", sec |-> s] : s \in Seconds }
+    \cup { [k |-> "datetimems", serial |-> SerialOfCivil(2020, 2, 29), sec |-> s, ms |-> m] : s \in {1, 3601}, m \in {250, 750} }
+    \cup { [k |-> "timems", sec |-> s, ms |-> m] : s \in {0, 3601}, m \in {250, 750} }
 FewCells == { Str(<<"a">>), [k |-> "empty"], Whole(FALSE, <<"7">>), Dy(FALSE, 1, 1), [k |-> "bool", b |-> TRUE],
               [k |-> "date", serial |-> SerialOfCivil(2020, 2, 29)], [k |-> "time", sec |-> 3601] }
 OneSheet == {<<1, 1>>}
